@@ -108,3 +108,36 @@ package cache
 //@   property C19
 //@   at before@memcache.ResolveServers: assert natural_order: natSorted($a0) && len($a0) == len(servers)
 //@   ensures  count: result == nil ==> len(s.addrs) == len(servers)
+//@
+//@ # ---- the in-memory LRU layer is write-through: every store, add and delete reaches the wrapped cache exactly once,
+//@ # whatever the local LRU holds (the external LRU itself is not modelled: its calls are havocked) ----------------
+//@ func LRUCache.Delete
+//@   property C19
+//@   ghost var fwd int = 0
+//@   at after@cache.Cache.Delete: fwd := fwd + 1
+//@   at exit: assert write_through: fwd == 1
+//@ func LRUCache.Set
+//@   property C19
+//@   ghost var fwd int = 0
+//@   at after@cache.Cache.Set: fwd := fwd + 1
+//@   at exit: assert write_through: fwd == 1
+//@ func LRUCache.Add
+//@   property C19
+//@   ghost var fwd int = 0
+//@   ghost var local int = 0
+//@   ghost var innerErr bool = false
+//@   at after@cache.Cache.Add: fwd := fwd + 1
+//@   at after@cache.Cache.Add: innerErr := $r0 != nil
+//@   at after@simplelru.LRU.Add: local := local + 1
+//@   # add-if-absent: the local copy is taken only when the wrapped cache accepted the entry
+//@   at exit: assert write_through: fwd == 1 && (innerErr ==> local == 0) && (result != nil <==> innerErr)
+//@ func LRUCache.SetAsync
+//@   property C19
+//@   ghost var fwd int = 0
+//@   at after@cache.Cache.SetAsync: fwd := fwd + 1
+//@   at exit: assert write_through: fwd == 1
+//@ func LRUCache.SetMultiAsync
+//@   property C19
+//@   ghost var fwd int = 0
+//@   at after@cache.Cache.SetMultiAsync: fwd := fwd + 1
+//@   at exit: assert write_through: fwd == 1
